@@ -16,7 +16,7 @@
             requires value >= 128;
         assert(w.out().push((value % 128 + 128) as u8) + enc_uint((value / 128) as nat) =~= w.out() + enc_uint(value as nat));
     }
-@before 2 `stmt:call write_u8`
+@before 3 `stmt:call write_u8`
     proof {
         assert(((value & 0b01111111) as u8) == value as u8) by(bit_vector) requires value < 128;
         assert(w.out().push(value as u8) =~= w.out() + enc_uint(value as nat));
@@ -39,7 +39,7 @@
             requires value >= 128;
         assert(w.out().push((value % 128 + 128) as u8) + enc_uint((value / 128) as nat) =~= w.out() + enc_uint(value as nat));
     }
-@before 2 `stmt:call write_u8`
+@before 3 `stmt:call write_u8`
     proof {
         assert(((value & 0b01111111) as u8) == value as u8) by(bit_vector) requires value < 128;
         assert(w.out().push(value as u8) =~= w.out() + enc_uint(value as nat));
@@ -59,6 +59,7 @@
     let ghost mut k: nat = 0;
 @loop 1
     invariant
+        s0 == old(r).rest(),
         r.wf(),
         k <= s0.len(),
         r.rest() == s0.skip(k as int),
@@ -86,6 +87,7 @@
     let ghost mut k: nat = 0;
 @loop 1
     invariant
+        s0 == old(r).rest(),
         r.wf(),
         k <= s0.len(),
         r.rest() == s0.skip(k as int),
@@ -141,5 +143,345 @@ impl VarInt for u64 {
 
     proof fn law_dec_enc(v: Self, tail: Seq<u8>) {
         lemma_dec_enc_u64(v, tail);
+    }
+}
+
+// ---------------------------------------------------------------------------------------------
+// signed var-ints
+// ---------------------------------------------------------------------------------------------
+/*@extract yrs/src/encoding/varint.rs | - | fn write_var_i64
+@sig
+    ensures final(w).out() == old(w).out() + enc_i64(value),
+@start
+    let ghost mag = abs_i64(value);
+    let ghost neg = value < 0;
+@loop 1
+    invariant
+        value > 0 ==> w.out() + enc_uint(value as nat) == old(w).out() + enc_sint(mag as nat, neg),
+        value == 0 ==> w.out() == old(w).out() + enc_sint(mag as nat, neg),
+    decreases value,
+@before 1 `stmt:while`
+    proof {
+        // the header byte and the remaining magnitude, as the format defines them
+        let first = (mag % 64 + (if neg { 64nat } else { 0nat }) + (if mag >= 64 { 128nat } else { 0nat })) as u8;
+        assert(((if mag > 0b00111111 as u64 { 0b10000000 as u8 } else { 0 }) | (if neg { 0b01000000 as u8 } else { 0 }) | (0b00111111 as u64 & mag) as u8)
+            == ((mag % 64) + (if neg { 64u64 } else { 0u64 }) + (if mag >= 64 { 128u64 } else { 0u64 })) as u8
+            && mag >> 6 == mag / 64) by(bit_vector);
+        assert(old(w).out().push(first) =~= old(w).out() + seq![first]);
+        if mag >= 64 {
+            assert(old(w).out().push(first) + enc_uint((mag / 64) as nat) =~= old(w).out() + enc_sint(mag as nat, neg));
+        }
+    }
+@before 2 `stmt:call write_u8`
+    proof {
+        assert(value >> 7 == value / 128 && value >> 7 < value
+            && ((if value > 0b01111111 as u64 { 0b10000000 as u8 } else { 0 }) | (0b01111111 as u64 & value) as u8)
+                == (if value >= 128 { (value % 128 + 128) as u8 } else { value as u8 })) by(bit_vector)
+            requires value > 0;
+        if value >= 128 {
+            assert(w.out().push((value % 128 + 128) as u8) + enc_uint((value / 128) as nat) =~= w.out() + enc_uint(value as nat));
+        } else {
+            assert(w.out().push(value as u8) =~= w.out() + enc_uint(value as nat));
+        }
+    }
+@*/
+
+/*@extract yrs/src/encoding/varint.rs | - | fn read_var_i64
+@ret res
+@sig
+    requires
+        old(reader).wf(),
+    ensures
+        final(reader).wf(),
+        read_post(old(reader).rest(), final(reader).rest(), res, dec_i64(old(reader).rest())),
+@start
+    let ghost s0 = reader.rest();
+    let ghost mut k: nat = 1;
+    proof { assert(s0.skip(0) =~= s0); }
+@after 1 `stmt:let num`
+    proof {
+        assert((r & 0b00111111 as u8) <= 63) by(bit_vector);
+    }
+@loop 1
+    invariant
+        s0 == old(reader).rest(),
+        reader.wf(),
+        1 <= k <= s0.len(),
+        reader.rest() == s0.skip(k as int),
+        len == 7 * k - 1,
+        len <= 62,
+        dec_sint(s0) == dec_sint_finish(dec_i64_from(reader.rest(), num, len), is_negative, k),
+    decreases 70 - len,
+@after 1 `stmt:assign r`
+    proof {
+        assert(s0.skip(k as int).skip(1) =~= s0.skip(k as int + 1));
+        k = k + 1;
+    }
+@*/
+
+impl SignedVarInt for i64 {
+    open spec fn enc_signed(s: &Signed<Self>) -> Seq<u8> {
+        enc_sint(abs_i64(s.value) as nat, s.is_negative)
+    }
+
+    open spec fn dec_signed(s: Seq<u8>) -> Option<(Signed<Self>, nat)> {
+        match dec_sint(s) {
+            Some(((v, neg), k)) => Some((Signed { value: v, is_negative: neg }, k)),
+            None => None,
+        }
+    }
+
+    open spec fn signed_wf(s: &Signed<Self>) -> bool {
+        if s.is_negative { s.value <= 0 } else { s.value >= 0 }
+    }
+
+    /*@extract yrs/src/encoding/varint.rs | impl SignedVarInt for i64 | fn write_signed
+    @start
+        let ghost mag = abs_i64(s.value);
+        let ghost neg = s.is_negative;
+@loop 1
+        invariant
+            value > 0 ==> w.out() + enc_uint(value as nat) == old(w).out() + enc_sint(mag as nat, neg),
+            value == 0 ==> w.out() == old(w).out() + enc_sint(mag as nat, neg),
+        decreases value,
+    @before 1 `stmt:while`
+        proof {
+            // the header byte and the remaining magnitude, as the format defines them
+            let first = (mag % 64 + (if neg { 64nat } else { 0nat }) + (if mag >= 64 { 128nat } else { 0nat })) as u8;
+            assert(((if mag > 0b00111111 as u64 { 0b10000000 as u8 } else { 0 }) | (if neg { 0b01000000 as u8 } else { 0 }) | (0b00111111 as u64 & mag) as u8)
+                == ((mag % 64) + (if neg { 64u64 } else { 0u64 }) + (if mag >= 64 { 128u64 } else { 0u64 })) as u8
+                && mag >> 6 == mag / 64) by(bit_vector);
+            assert(old(w).out().push(first) =~= old(w).out() + seq![first]);
+            if mag >= 64 {
+                assert(old(w).out().push(first) + enc_uint((mag / 64) as nat) =~= old(w).out() + enc_sint(mag as nat, neg));
+            }
+        }
+    @before 2 `stmt:call write_u8`
+        proof {
+            assert(value >> 7 == value / 128 && value >> 7 < value
+                && ((if value > 0b01111111 as u64 { 0b10000000 as u8 } else { 0 }) | (0b01111111 as u64 & value) as u8)
+                    == (if value >= 128 { (value % 128 + 128) as u8 } else { value as u8 })) by(bit_vector)
+                requires value > 0;
+            if value >= 128 {
+                assert(w.out().push((value % 128 + 128) as u8) + enc_uint((value / 128) as nat) =~= w.out() + enc_uint(value as nat));
+            } else {
+                assert(w.out().push(value as u8) =~= w.out() + enc_uint(value as nat));
+            }
+        }
+    @*/
+
+    /*@extract yrs/src/encoding/varint.rs | impl SignedVarInt for i64 | fn read_signed
+@start
+        let ghost s0 = reader.rest();
+        let ghost mut k: nat = 1;
+        proof { assert(s0.skip(0) =~= s0); }
+    @after 1 `stmt:let num`
+        proof {
+            assert((r & 0b00111111 as u8) <= 63) by(bit_vector);
+        }
+    @loop 1
+        invariant
+            s0 == old(reader).rest(),
+            reader.wf(),
+            1 <= k <= s0.len(),
+            reader.rest() == s0.skip(k as int),
+            len == 7 * k - 1,
+            len <= 62,
+            dec_sint(s0) == dec_sint_finish(dec_i64_from(reader.rest(), num, len), is_negative, k),
+        decreases 70 - len,
+    @after 1 `stmt:assign r`
+        proof {
+            assert(s0.skip(k as int).skip(1) =~= s0.skip(k as int + 1));
+            k = k + 1;
+        }
+    @*/
+
+    proof fn law_dec_signed_bounded(s: Seq<u8>) {
+        lemma_dec_sint_bounded(s);
+    }
+
+    proof fn law_dec_enc_signed(v: Signed<Self>, tail: Seq<u8>) {
+        lemma_dec_enc_sint(abs_i64(v.value), v.is_negative, tail);
+        lemma_sint_val_abs(v.value);
+    }
+}
+
+// ---------------------------------------------------------------------------------------------
+// the remaining VarInt impls: delegation + narrowing with `try_into` (out-of-range = Err(InvalidVarInt))
+// ---------------------------------------------------------------------------------------------
+impl VarInt for usize {
+    open spec fn enc(&self) -> Seq<u8> {
+        enc_uint(*self as nat)
+    }
+
+    open spec fn dec(s: Seq<u8>) -> Option<(Self, nat)> {
+        // `as usize` truncates on 32-bit targets, as the real code does
+        dec_map(dec_u64(s), |v: u64| Some(v as usize))
+    }
+
+    /*@extract yrs/src/encoding/varint.rs | impl VarInt for usize | fn write @*/
+
+    /*@extract yrs/src/encoding/varint.rs | impl VarInt for usize | fn read @*/
+
+    proof fn law_dec_bounded(s: Seq<u8>) {
+        lemma_dec_u64_bounded(s);
+    }
+
+    proof fn law_dec_enc(v: Self, tail: Seq<u8>) {
+        lemma_dec_enc_u64(v as u64, tail);
+    }
+}
+
+impl VarInt for u16 {
+    open spec fn enc(&self) -> Seq<u8> {
+        enc_uint(*self as nat)
+    }
+
+    open spec fn dec(s: Seq<u8>) -> Option<(Self, nat)> {
+        dec_map(dec_u32(s), |v: u32| if v <= u16::MAX { Some(v as u16) } else { None })
+    }
+
+    /*@extract yrs/src/encoding/varint.rs | impl VarInt for u16 | fn write @*/
+
+    /*@extract yrs/src/encoding/varint.rs | impl VarInt for u16 | fn read @*/
+
+    proof fn law_dec_bounded(s: Seq<u8>) {
+        lemma_dec_u32_bounded(s);
+    }
+
+    proof fn law_dec_enc(v: Self, tail: Seq<u8>) {
+        lemma_dec_enc_u32(v as u32, tail);
+    }
+}
+
+impl VarInt for u8 {
+    open spec fn enc(&self) -> Seq<u8> {
+        enc_uint(*self as nat)
+    }
+
+    open spec fn dec(s: Seq<u8>) -> Option<(Self, nat)> {
+        dec_map(dec_u32(s), |v: u32| if v <= u8::MAX { Some(v as u8) } else { None })
+    }
+
+    /*@extract yrs/src/encoding/varint.rs | impl VarInt for u8 | fn write @*/
+
+    /*@extract yrs/src/encoding/varint.rs | impl VarInt for u8 | fn read @*/
+
+    proof fn law_dec_bounded(s: Seq<u8>) {
+        lemma_dec_u32_bounded(s);
+    }
+
+    proof fn law_dec_enc(v: Self, tail: Seq<u8>) {
+        lemma_dec_enc_u32(v as u32, tail);
+    }
+}
+
+impl VarInt for i64 {
+    open spec fn enc(&self) -> Seq<u8> {
+        enc_i64(*self)
+    }
+
+    open spec fn dec(s: Seq<u8>) -> Option<(Self, nat)> {
+        dec_i64(s)
+    }
+
+    /*@extract yrs/src/encoding/varint.rs | impl VarInt for i64 | fn write @*/
+
+    /*@extract yrs/src/encoding/varint.rs | impl VarInt for i64 | fn read @*/
+
+    proof fn law_dec_bounded(s: Seq<u8>) {
+        lemma_dec_sint_bounded(s);
+    }
+
+    proof fn law_dec_enc(v: Self, tail: Seq<u8>) {
+        lemma_dec_enc_i64(v, tail);
+    }
+}
+
+impl VarInt for isize {
+    open spec fn enc(&self) -> Seq<u8> {
+        enc_i64(*self as i64)
+    }
+
+    open spec fn dec(s: Seq<u8>) -> Option<(Self, nat)> {
+        dec_map(dec_i64(s), |v: i64| if isize::MIN <= v <= isize::MAX { Some(v as isize) } else { None })
+    }
+
+    /*@extract yrs/src/encoding/varint.rs | impl VarInt for isize | fn write @*/
+
+    /*@extract yrs/src/encoding/varint.rs | impl VarInt for isize | fn read @*/
+
+    proof fn law_dec_bounded(s: Seq<u8>) {
+        lemma_dec_sint_bounded(s);
+    }
+
+    proof fn law_dec_enc(v: Self, tail: Seq<u8>) {
+        lemma_dec_enc_i64(v as i64, tail);
+    }
+}
+
+impl VarInt for i32 {
+    open spec fn enc(&self) -> Seq<u8> {
+        enc_i64(*self as i64)
+    }
+
+    open spec fn dec(s: Seq<u8>) -> Option<(Self, nat)> {
+        dec_map(dec_i64(s), |v: i64| if i32::MIN <= v <= i32::MAX { Some(v as i32) } else { None })
+    }
+
+    /*@extract yrs/src/encoding/varint.rs | impl VarInt for i32 | fn write @*/
+
+    /*@extract yrs/src/encoding/varint.rs | impl VarInt for i32 | fn read @*/
+
+    proof fn law_dec_bounded(s: Seq<u8>) {
+        lemma_dec_sint_bounded(s);
+    }
+
+    proof fn law_dec_enc(v: Self, tail: Seq<u8>) {
+        lemma_dec_enc_i64(v as i64, tail);
+    }
+}
+
+impl VarInt for i16 {
+    open spec fn enc(&self) -> Seq<u8> {
+        enc_i64(*self as i64)
+    }
+
+    open spec fn dec(s: Seq<u8>) -> Option<(Self, nat)> {
+        dec_map(dec_i64(s), |v: i64| if i16::MIN <= v <= i16::MAX { Some(v as i16) } else { None })
+    }
+
+    /*@extract yrs/src/encoding/varint.rs | impl VarInt for i16 | fn write @*/
+
+    /*@extract yrs/src/encoding/varint.rs | impl VarInt for i16 | fn read @*/
+
+    proof fn law_dec_bounded(s: Seq<u8>) {
+        lemma_dec_sint_bounded(s);
+    }
+
+    proof fn law_dec_enc(v: Self, tail: Seq<u8>) {
+        lemma_dec_enc_i64(v as i64, tail);
+    }
+}
+
+impl VarInt for i8 {
+    open spec fn enc(&self) -> Seq<u8> {
+        enc_i64(*self as i64)
+    }
+
+    open spec fn dec(s: Seq<u8>) -> Option<(Self, nat)> {
+        dec_map(dec_i64(s), |v: i64| if i8::MIN <= v <= i8::MAX { Some(v as i8) } else { None })
+    }
+
+    /*@extract yrs/src/encoding/varint.rs | impl VarInt for i8 | fn write @*/
+
+    /*@extract yrs/src/encoding/varint.rs | impl VarInt for i8 | fn read @*/
+
+    proof fn law_dec_bounded(s: Seq<u8>) {
+        lemma_dec_sint_bounded(s);
+    }
+
+    proof fn law_dec_enc(v: Self, tail: Seq<u8>) {
+        lemma_dec_enc_i64(v as i64, tail);
     }
 }
